@@ -3,6 +3,7 @@ import re
 from .. import common, roles, lemmas
 from ..roles import P_, param, INFO_TY, ENV_TY, AnchorMissing
 from ..mir import generic_path
+from ..lemmas import cond_strings
 
 def ASSERT_VARIANT(ctx):
     return ctx.N.exec_enum("router") + "::AssertMinimumReceive"
@@ -104,6 +105,35 @@ def run(ctx):
             len(asserts), [a[0].path for a in asserts]))
         return
     afn, ab, ai, av, aspan = asserts[0]
+    # `minimum_receive.filter(|m| !m.is_zero())`: a minimum of zero is met by every outcome (a balance difference, computed by
+    # aborting subtraction, is never negative), so dropping exactly the zero minimum keeps the guarantee; any other predicate
+    # (a route length, a flag) would drop minimums the caller relies on
+    zero_drop = False
+    for fb, fp, ffr, ft in P.calls(acc):
+        if not fp or not generic_path(fp).endswith("option::Option::filter"):
+            continue
+        fv = P.val_call(acc, body, fb)
+        if set(ctx.roots(fv[4][0])) != {P_(acc, min_i)}:
+            continue
+        clo = fv[4][1]
+        cf_ = P.fn(clo[2]) if clo[0] == "agg" and clo[1] == "closure" else None
+        okz = False
+        if cf_ is not None and cf_.body is not None:
+            exs_ = common.exit_sites(P, cf_)
+            if len(exs_) == 1:
+                c_ = common.cond_of_value(exs_[0][3], exs_[0][0])
+                cs_ = cond_strings(ctx, [{"cond": c_, "allowed": [not common._cond_negated(c_)], "sw": exs_[0][0], "ty": None}]) if c_[0] == "cmp" else set()
+                pm = P_(cf_, 1)
+                zero_rx = r"(K:0|C:cosmwasm_std::(\S*::)?Uint128::zero@[^|,]*)"
+                okz = any(x == "is_zero(%s) is [False]" % pm or re.match(r"^lt\(%s, %s\)$" % (zero_rx, re.escape(pm)), x) for x in cs_)
+        if not okz:
+            r1.fail("C11.R1:minimum-filtered", acc.path, common.span_of_block_term(acc, fb),
+                    "minimum_receive is dropped by a filter whose predicate is not `the minimum is non-zero`: a requested minimum would go unchecked")
+            return
+        zero_drop = True
+        r1.site("a zero minimum (met by every outcome) is dropped before the assertion is built at %s" % common.span_of_block_term(acc, fb))
+    if zero_drop:
+        ctx.R = common.Roots(P, extra_transparent=lambda callee: 0 if isinstance(callee, str) and generic_path(callee).endswith("option::Option::filter") else None)
     oes = option_edges(ctx, acc, P_(acc, min_i), all_tests=True)
     oe = oes[0] if oes else None
     if oe is None:
